@@ -15,7 +15,7 @@ LEVEL = 'fault_enumeration'
 RULE = ('starting from valid strings (C04 grammar ASTs incl. multiplied nodes/branches; C01 cut molecules; coarse cut graphs and '
         '3-level strings) ONE fault is injected at EVERY admissible position of each base string: (a) a ring marker (digit or '
         '%nn) opened on node i and never closed; (b) a ring bond duplicating an existing edge (chain neighbour, branch anchor, '
-        'existing ring bond); (c) a node with an edge of order >= 1 renamed to a name without fragment; (d) an annotation '
+        'existing ring bond); (c) a node with an edge of order >= 1 renamed to a name without fragment (also with a proper virtual node of that name earlier in the string); (d) an annotation '
         'entry with two "="; (e) more positional values than the dialect has, written before, after or around a key=value entry; (f) a non-numeric value (positional or keyword) '
         'for a key that is reserved-numeric at that level - in base-graph nodes, coarse-fragment nodes and atomistic bracket '
         'atoms; (f) on atoms also with the text of a base-graph node of the same string as the value; (d-f) also inside a SECOND definition of an already defined name appended to its block, and (a) also on nodes of '
@@ -232,6 +232,10 @@ def cases(seed, tier, shard, nshards):
                     mixed = any(d.get('order', 1) == 0 for _, _, d in c['base'].edges(node, data=True))
                     vs.append(dict(fault='c', pos=position_class(i, len(pre), flat[i][1], False) + ('_mixed_orders' if mixed else ''), level='base', api='resolve',
                                    string=G.to_string(a2) + '.' + frag()))
+                    # ... and when a proper fragment-less node of the SAME undefined name (order-0 bond only) stands earlier
+                    # in the string: that one is virtual, this one is still a fault
+                    vs.append(dict(fault='c', pos='after_a_virtual_node_of_the_same_name' + ('_mixed_orders' if mixed else ''), level='base', api='resolve',
+                                   string='{[#NOFRAG].' + G.to_string(a2)[1:] + '.' + frag()))
                     # the same fault when the base graph is handed over as a networkx graph
                     vs.append(dict(fault='c', pos='via_from_graph' + ('_mixed_orders' if mixed else ''), level='base', api='resolve_from_graph',
                                    string=G.to_string(a2) + '.' + frag()))
